@@ -114,6 +114,20 @@ pub fn generate(prop: &PropDef, tier: &str, seed: u64, index: u64) -> RunSpec {
             s.extra = serde_json::to_value(crate::crash::default_plan(tier)).unwrap();
             s
         }
+        EngineKind::Corrupt => {
+            let mut s = crate::gen::gen_run(prop.id, seed, &(prop.profile)());
+            s.extra = serde_json::to_value(crate::corrupt::default_plan(tier)).unwrap();
+            s
+        }
+        EngineKind::Fault => {
+            let mut p = (prop.profile)();
+            if tier == "thorough" {
+                p.max_ops = 12;
+            }
+            let mut s = crate::gen::gen_run(prop.id, seed, &p);
+            s.extra = serde_json::to_value(crate::fault::default_plan(tier)).unwrap();
+            s
+        }
         _ => crate::gen::gen_run(prop.id, seed, &(prop.profile)()),
     }
 }
@@ -180,6 +194,8 @@ pub fn run_spec(prop: &PropDef, spec: &RunSpec, workdir: &Path, index: u64) -> R
     match prop.engine {
         EngineKind::Seq => run_seq(prop, spec, workdir, index),
         EngineKind::Crash => crate::crash::run_crash(prop, spec, workdir, index),
+        EngineKind::Fault => crate::fault::run_fault(prop, spec, workdir, index),
+        EngineKind::Corrupt => crate::corrupt::run_corrupt(prop, spec, workdir, index),
         _ => run_seq(prop, spec, workdir, index),
     }
 }
